@@ -18,7 +18,7 @@ import (
 func init() {
 	Register(&Property{
 		ID: "C02",
-		Explanation: "Decides structural necessary conditions of 'limits fail closed and a request can only lower the depth': (R02.1) at every call that enters the recursive check engine from outside it, and in expand, the depth handed on equals eff(r,g) = (r<=0 or r>g) ? g : r for every ordering of the request depth r, zero and the global limit g -- decided by evaluating the function's own branch predicates on representatives of every ordering, followed through callers when a function passes its parameter on unclamped; (R02.2) every engine function with a depth parameter returns the cut-off result under a guard depth<=0 / depth<0 that dominates all its other engine calls; (R02.3) a cut-off always reaches every negation: out of band -- every cut-off site calls the marker, the negation flips NotMember to IsMember only on the false branch of a read of the flag, marks its own enclosing negation otherwise, and installs the same flag object in both contexts it hands to its child; no engine code creates a root context; additionally no combinator turns Unknown into IsMember (tables); (R02.4) the width truncation slice is in range given the schema's minimum for max_read_width. " +
+		Explanation: "Decides structural necessary conditions of 'limits fail closed and a request can only lower the depth': (R02.1) at every call that enters the recursive check engine from outside it, and in expand, the depth handed on equals eff(r,g) = (r<=0 or r>g) ? g : r for every ordering of the request depth r, zero and the global limit g -- decided by evaluating the function's own branch predicates on representatives of every ordering, followed through callers when a function passes its parameter on unclamped; (R02.2) every engine function with a depth parameter returns the cut-off result under a guard depth<=0 / depth<0 that dominates all its other engine calls; (R02.3) a cut-off always reaches every negation: out of band -- every cut-off site calls the marker, the negation flips NotMember to IsMember only on the false branch of a read of the flag, marks its own enclosing negation otherwise, and installs the same flag object in both contexts it hands to its child; no engine code creates a root context; additionally no combinator turns Unknown into IsMember (tables); (R02.5) the width limit is read only in a function that marks the cut-off; (R02.6) every comparison of the remaining depth with a constant in the engine answers with the cut-off result on its exhausted side -- none merely skips work; (R02.4) the width truncation slice is in range given the schema's minimum for max_read_width. " +
 			"Not decided: that a request behaves exactly like a server whose global limit is eff beyond the clamp itself.",
 		Assumptions: []string{
 			"limit.max_read_depth >= 1 and limit.max_read_width >= 1 (embedx/config.schema.json minimums, read by the check)",
@@ -383,6 +383,151 @@ func runC02(c *Ctx) {
 		}
 	}
 	r.Floor("R02.2", 7, "7 depth-taking engine functions")
+
+	// ---- R02.6 every branch on the remaining depth is a cut-off: in the engine
+	// functions (and the closures they return) a comparison of the depth with a
+	// constant may only decide between "go on" and "answer with the cut-off
+	// result"; a side that merely skips work answers NotMember for an unexplored
+	// branch, which a negation turns into 'allowed'
+	n26 := 0
+	for _, fn := range engs {
+		dp := depthParam(fn)
+		for _, f2 := range core.Closures(fn) {
+			for _, b := range f2.Blocks {
+				if len(b.Instrs) == 0 {
+					continue
+				}
+				ifi, ok := b.Instrs[len(b.Instrs)-1].(*ssa.If)
+				if !ok {
+					continue
+				}
+				op, x, y, ok := core.BinCmp(ifi.Cond)
+				if !ok {
+					continue
+				}
+				isDepth := func(v ssa.Value) bool {
+					o := core.ValueOrigin(v)
+					if bo, ok := o.(*ssa.BinOp); ok && (bo.Op == token.SUB || bo.Op == token.ADD) {
+						if _, isK := core.IntConst(bo.Y); isK {
+							o = core.ValueOrigin(bo.X)
+						}
+					}
+					if fv, ok := o.(*ssa.FreeVar); ok {
+						o = core.ValueOrigin(core.FreeVarBinding(fv))
+					}
+					return o == ssa.Value(dp)
+				}
+				if !isDepth(x) {
+					continue
+				}
+				if _, isK := core.IntConst(y); !isK {
+					continue
+				}
+				// which successor is the exhausted side (depth small)?
+				exhausted := -1
+				switch op {
+				case token.LEQ, token.LSS, token.EQL:
+					exhausted = 0
+				case token.GTR, token.GEQ, token.NEQ:
+					exhausted = 1
+				}
+				if exhausted < 0 {
+					continue
+				}
+				n26++
+				// every path from the exhausted side to a return passes a cut-off marker
+				marker := func(blk *ssa.BasicBlock) bool {
+					for _, ins := range blk.Instrs {
+						switch z := ins.(type) {
+						case *ssa.Return:
+							if len(z.Results) == 1 {
+								if f, ok := z.Results[0].(*ssa.Function); ok && f == unknownFn {
+									return true
+								}
+							}
+						case ssa.CallInstruction:
+							if obj := core.CalleeObj(z.Common()); obj != nil && obj.Name() == "MarkCutOff" {
+								return true
+							}
+						}
+					}
+					return false
+				}
+				seen := map[*ssa.BasicBlock]bool{}
+				var leak *ssa.BasicBlock
+				var walk func(blk *ssa.BasicBlock)
+				walk = func(blk *ssa.BasicBlock) {
+					if seen[blk] || leak != nil {
+						return
+					}
+					seen[blk] = true
+					if marker(blk) {
+						return
+					}
+					if len(blk.Succs) == 0 {
+						leak = blk
+						return
+					}
+					for _, sc := range blk.Succs {
+						walk(sc)
+					}
+				}
+				walk(b.Succs[exhausted])
+				r.Check(leak == nil, "R02.6", core.FuncName(f2), "branch on the remaining depth", p.Pos(ifi.Cond.Pos()),
+					"the depth-exhausted side of the comparison answers with the cut-off result",
+					"the depth-exhausted side of this comparison goes on to return without the cut-off result (UnknownMemberFunc) or the cut-off marker: the skipped work is reported as 'not a member', which an enclosing negation turns into 'allowed'")
+			}
+		}
+	}
+	if n26 < 7 {
+		r.Undecide("R02.6", "", "branches on the remaining depth", "", fmt.Sprintf("%d found (floor 7: the guards of R02.2)", n26))
+	}
+
+	// ---- R02.5 who may read the width limit: a second place that limits the
+	// number of candidates without marking the cut-off disagrees with the
+	// engine's own 'len(results) > max' test
+	nW := 0
+	belowCheck := map[*ssa.Function]bool{}
+	if root := p.Func("(*internal/check.Engine).CheckRelationTuple"); root != nil {
+		for f := range p.KG().ReachLive([]*ssa.Function{root}, nil).Parent {
+			belowCheck[f] = true
+		}
+	}
+	for _, pk := range p.KetoPackages() {
+		for _, fn := range p.KetoFuncs(core.RelPath(pk.PkgPath)) {
+			if !belowCheck[fn] && !belowCheck[core.Outermost(fn)] {
+				continue // only code that runs below a check can cut a check off
+			}
+			core.Instrs(fn, func(_ *ssa.BasicBlock, _ int, ins ssa.Instruction) {
+				ci, ok := ins.(ssa.CallInstruction)
+				if !ok {
+					return
+				}
+				obj := core.CalleeObj(ci.Common())
+				if obj == nil || obj.Name() != "MaxReadWidth" || obj.Pkg() == nil || !strings.HasSuffix(obj.Pkg().Path(), "/internal/driver/config") {
+					return
+				}
+				nW++
+				// the reading function must mark the cut-off
+				marks := false
+				for _, g := range core.Closures(core.Outermost(fn)) {
+					core.Instrs(g, func(_ *ssa.BasicBlock, _ int, i2 ssa.Instruction) {
+						if c2, ok := i2.(ssa.CallInstruction); ok {
+							if o2 := core.CalleeObj(c2.Common()); o2 != nil && o2.Name() == "MarkCutOff" {
+								marks = true
+							}
+						}
+					})
+				}
+				r.Check(marks, "R02.5", core.FuncName(fn), "read of the width limit", p.Pos(ins.Pos()),
+					"the width limit is read where the truncation marks the cut-off",
+					"the width limit is read in a function that never marks a cut-off: limiting the candidates here is invisible to the negation (the engine only recognises a truncation it performs itself)")
+			})
+		}
+	}
+	if nW < 1 {
+		r.Undecide("R02.5", "", "reads of the width limit", "", "none found (floor 1)")
+	}
 
 	r023(c, inEng)
 	r024(c)
